@@ -7,6 +7,7 @@
 //       a<k>  SetAttribute(key <k> (one letter), value = op id)      e  AddEvent("e<id>")
 //       s<c>  SetStatus(code <c> in 0..2, description "s<id>")        n  UpdateName("n<id>")
 //       E     End()                                                  r  IsRecording()
+//       l     AddLink(ctx, {{"id", op id}})   (engine word `spn2` = the same harness built with OPENTELEMETRY_ABI_VERSION_NO=2)
 //     op id = 100 * thread + index in the script.  `t<i>` = thread i takes one step (scheduling points: the begin of every
 //     op, lock / unlock of Span::mu_, every Recordable setter, SpanProcessor::OnEnd).  After the schedule everything is
 //     drained round-robin, then one more managed thread drops the last reference to the span (~Span calls End()).
@@ -75,7 +76,15 @@ public:
   {
     write("ev " + std::string(name.data(), name.size()).substr(1));
   }
-  void AddLink(const trace_api::SpanContext &, const common::KeyValueIterable &) noexcept override { write("link"); }
+  void AddLink(const trace_api::SpanContext &, const common::KeyValueIterable &attrs) noexcept override
+  {
+    std::string id = "?";
+    attrs.ForEachKeyValue([&](nostd::string_view, common::AttributeValue v) noexcept {
+      if (nostd::holds_alternative<int64_t>(v)) id = std::to_string(nostd::get<int64_t>(v));
+      return true;
+    });
+    write("lk " + id);
+  }
   void SetStatus(trace_api::StatusCode code, nostd::string_view d) noexcept override
   {
     write("st " + std::to_string(static_cast<int>(code)) + " " + std::string(d.data(), d.size()).substr(1));
@@ -152,6 +161,12 @@ static bool parse_script(const std::string &s, std::vector<Op> &ops)
     {
       if (tok.size() != 1) return false;
     }
+#if OPENTELEMETRY_ABI_VERSION_NO >= 2
+    else if (k == 'l')
+    {
+      if (tok.size() != 1) return false;
+    }
+#endif
     else
       return false;
     ops.push_back({k, tok.substr(1)});
@@ -237,6 +252,16 @@ static std::string handle(const std::vector<std::string> &t)
               detsched::note("ret");
               break;
             }
+#if OPENTELEMETRY_ABI_VERSION_NO >= 2
+            case 'l': {
+              detsched::note("call lk " + is);
+              std::map<std::string, int64_t> a{{"id", static_cast<int64_t>(id)}};
+              common::KeyValueIterableView<std::map<std::string, int64_t>> kv(a);
+              sp.AddLink(trace_api::SpanContext::GetInvalid(), kv);
+              detsched::note("ret");
+              break;
+            }
+#endif
             case 'E':
               detsched::note("call end");
               sp.End();
@@ -288,7 +313,11 @@ int main()
 {
   return vh::run_lines([](const std::vector<std::string> &t) -> std::string {
     if (t.empty()) return "bad-op";
+#if OPENTELEMETRY_ABI_VERSION_NO >= 2
+    if (t[0] == "spn2") return handle(t);
+#else
     if (t[0] == "spn") return handle(t);
+#endif
     return "bad-op";
   });
 }
